@@ -261,7 +261,11 @@ fn run_serial(seed: u64, a: usize, b: usize) -> Option<(Value, u64, Value)> {
     let s0 = digest(&s.h);
     let counter = std::rc::Rc::new(std::cell::RefCell::new(0u64));
     let c2 = counter.clone();
-    crate::verif_hook::install(Box::new(move |_| *c2.borrow_mut() += 1));
+    crate::verif_hook::install(Box::new(move |site| {
+        if !site.starts_with("read:") {
+            *c2.borrow_mut() += 1
+        }
+    }));
     let ra = guarded(|| exec(&s.h, &s.ops[a]));
     let writes_a = *counter.borrow();
     crate::verif_hook::clear();
@@ -325,7 +329,10 @@ fn run_concurrent(seed: u64, a: usize, b: usize, k: u64) -> Conc {
         super::super::util::install_panic_hook();
         let mut count = 0u64;
         let mut parked_tx = Some(parked_tx);
-        crate::verif_hook::install(Box::new(move |_site| {
+        crate::verif_hook::install(Box::new(move |site| {
+            if site.starts_with("read:") {
+                return;
+            }
             count += 1;
             if count == k {
                 if let Some(tx) = parked_tx.take() {
@@ -422,6 +429,8 @@ fn run_concurrent(seed: u64, a: usize, b: usize, k: u64) -> Conc {
 }
 
 pub fn run(cfg: &RunCfg, out: &Out) {
+    // reader clause first (cheap): paged queries parked mid-scan while a writer sequence runs
+    super::c17r::run(cfg, out, cfg.budget);
     let n_ops = 6;
     let mut pairs: Vec<(usize, usize)> = vec![];
     for a in 0..n_ops {
